@@ -54,6 +54,27 @@ where T: Types
 
     /// Shared with `FlushWorker`; stores the highest completed seq.
     done_seq: Arc<AtomicU64>,
+
+    /// Joined on drop, so that nothing touches the directory afterwards.
+    worker: Option<std::thread::JoinHandle<()>>,
+}
+
+impl<T> Drop for RaftLogWAL<T>
+where T: Types
+{
+    /// Close the channel and wait until the FlushWorker has processed every
+    /// queued request (pending writes, chunk removals) and has quit.
+    ///
+    /// Without this, the detached worker could still remove chunk files after
+    /// the store was dropped, i.e. under a store re-opened on the same dir.
+    fn drop(&mut self) {
+        let (closed_tx, _) = std::sync::mpsc::sync_channel(0);
+        drop(std::mem::replace(&mut self.flush_tx, closed_tx));
+
+        if let Some(worker) = self.worker.take() {
+            let _ = worker.join();
+        }
+    }
 }
 
 impl<T> RaftLogWAL<T>
@@ -89,7 +110,7 @@ where T: Types
         let (flush_tx, rx) = std::sync::mpsc::sync_channel(1024);
         let worker = FlushWorker::new(rx, file_entry, cache, done_seq.clone());
 
-        worker.spawn();
+        let worker = worker.spawn();
 
         Self {
             config,
@@ -98,6 +119,7 @@ where T: Types
             flush_tx,
             sent_seq: 0,
             done_seq,
+            worker: Some(worker),
         }
     }
 
